@@ -342,3 +342,94 @@ PROPS["C19"] = Meta(_c19_jobs(),
     "rebuild (C13) oracles hold on generated cases; quick = 18 configurations covering every value and the main pairs, thorough = all 49; "
     "non-trivial = a case whose move changes the number of occupied leaves (cfg binaries) / >= 2 leaves (others); Hilbert: geometry-free values and leaf-level coordinates only (F-HILBERT)",
     SCHED_ASSUME)
+
+
+def num(kernel, order, real="double", rt=0, periodic=0, tsmn=0, low=None):
+    name = "t_num_%s%d%s_%s%s%s%s" % ({1: "rot", 2: "unif"}[kernel], order, ("vs%d" % low) if low else "", real, "_omp" if rt else "", "_per" if periodic else "", "_tsm" if tsmn else "")
+    defs = {"KERNEL": kernel, "ORDERV": order, "REALT": real, "RT": rt, "PERIODIC": periodic, "TSMN": tsmn}
+    if low:
+        defs["ORDERLOW"] = low
+    srcs = ["props/t_num.cpp"] + (["runtimes/mockgomp.cpp"] if rt else [])
+    cxx = (["-fopenmp"] if rt else []) + ["-O2"]       # numerical kernels are heavy: optimise (sanitizers and assertions stay on)
+    defs2 = dict(defs)
+    ld = ["-lpthread"]
+    if kernel == 2:
+        defs2["TBF_USE_FFTW"] = None
+        ld += ["-lfftw3", "-lfftw3f"]
+    return Bin(name, srcs, defs2, cxxflags=cxx, ldflags=ld)
+
+
+NUM_CONFIGS = {
+    "C04": [(1, 4, "double", 0, 0, 0), (1, 8, "double", 0, 0, 0), (1, 12, "double", 0, 0, 0), (1, 6, "double", 0, 0, 0),
+            (1, 4, "float", 0, 0, 0), (1, 8, "float", 0, 0, 0),
+            (1, 8, "double", 1, 0, 0), (1, 4, "double", 0, 1, 0), (1, 8, "double", 0, 1, 0), (1, 4, "double", 0, 0, 1)],
+    "C05": [(2, 3, "double", 0, 0, 0), (2, 5, "double", 0, 0, 0), (2, 8, "double", 0, 0, 0),
+            (2, 3, "float", 0, 0, 0), (2, 5, "float", 0, 0, 0),
+            (2, 5, "double", 1, 0, 0), (2, 3, "double", 0, 1, 0), (2, 5, "double", 0, 1, 0), (2, 5, "double", 0, 0, 1), (2, 3, "double", 0, 1, 1)],
+}
+
+
+# ---- C15: the sanitizer sweep reuses the binaries (hence the generators) of C01, C09, C10, C13, C03 with --prop C15 ----------------
+PROPS["C15"] = Meta(
+    [Job("d3", single(3), quick=(3, 300, 100), thorough=(16, 4000, 100)),
+     Job("d2", single(2), quick=(2, 300, 100), thorough=(16, 4000, 100)),
+     Job("d1", single(1), quick=(1, 300, 100), thorough=(16, 4000, 100)),
+     Job("d4", single(4), quick=(1, 150, 100), thorough=(16, 2000, 100)),
+     Job("d3-float", single(3, 1, "float"), quick=(1, 300, 100), thorough=(16, 4000, 100)),
+     Job("tsm-seq-d3", tsm(0, 3), quick=(2, 300, 100), thorough=(16, 4000, 100)),
+     Job("tsm-seq-d2", tsm(0, 2), quick=(1, 300, 100), thorough=(16, 4000, 100)),
+     Job("per-seq-d3", periodic(0, 0, 3), quick=(2, 200, 100), thorough=(16, 3000, 100)),
+     Job("per-seq-d2", periodic(0, 0, 2), quick=(1, 200, 100), thorough=(16, 3000, 100)),
+     Job("per-omp-d3", periodic(1, 0, 3), quick=(1, 200, 100), thorough=(16, 3000, 100)),
+     Job("ptsm-d3", periodic(0, 1, 3), quick=(1, 200, 100), thorough=(16, 3000, 100)),
+     Job("rb-d3", rebuild(3), quick=(2, 200, 100), thorough=(16, 3000, 100)),
+     Job("rb-d2", rebuild(2), quick=(1, 200, 100), thorough=(16, 3000, 100)),
+     Job("rb-d3-periodic", rebuild(3, periodic=1), quick=(1, 200, 100), thorough=(16, 3000, 100)),
+     Job("rb-d3-float-double", rebuild(3, "float", "double"), quick=(1, 200, 100), thorough=(16, 3000, 100)),
+     Job("omp-d3", sched(1, 3), quick=(3, 200, 100), thorough=(16, 3000, 100)),
+     Job("specx-d3", sched(2, 3), quick=(2, 200, 100), thorough=(16, 3000, 100)),
+     Job("starpu-d3", sched(3, 3), quick=(2, 200, 100), thorough=(16, 3000, 100)),
+     Job("omp-tsm-d3", tsm(1, 3), quick=(2, 200, 100), thorough=(16, 3000, 100)),
+     Job("specx-tsm-d3", tsm(2, 3), quick=(1, 200, 100), thorough=(16, 3000, 100)),
+     Job("starpu-tsm-d3", tsm(3, 3), quick=(1, 200, 100), thorough=(16, 3000, 100)),
+     Job("memblock", Bin("t_memblock", ["props/t_memblock.cpp"]), quick=(1, 400, 100), thorough=(16, 6000, 100))],
+    "the generators of C01 (single trees, Dim 1..4, float), C09 (target/source), C10 (periodic, OpenMP, target/source top tree), C13 (move/rebuild/execute histories, periodic ordering, mixed "
+    "coordinate/data types), and the schedules of C03 (OpenMP, Specx, StarPU executors and their target/source variants under the mock runtimes), run under AddressSanitizer "
+    "(heap/stack/global bounds, use-after-free/-return/-scope), LeakSanitizer (leak check after every case), UndefinedBehaviorSanitizer (-fno-sanitize-recover), libstdc++ assertions, "
+    "-ftrivial-auto-var-init=pattern and the library's own asserts (-UNDEBUG); oracle = no report / abort / leak; semantic oracles of the owning properties are evaluated but only counted; "
+    "non-trivial as defined by the owning binary; distinct by hash of the case",
+    SCHED_ASSUME + ["MemorySanitizer is not usable in this image (no instrumented libstdc++): uninitialised reads are made deterministic with pattern initialisation and are caught by the semantic oracles of the owning properties instead"])
+
+
+NUM_RULE = ("FmmCase in a cubic box (unit / dyadic / generic, any centre), heights 1..6 (periodic 2..4), N up to 300 (periodic 60), 7 distributions incl. cell faces (exactly on faces only for dyadic boxes), "
+            "signed charges |q| in [1e-3,1], no coincident particles, no coordinate equal to the leaf-centre coordinate (rotation kernel known findings); oracle = long double pairwise sum "
+            "(explicit sum over the images of the reported repetition interval when periodic): all results finite, max normalised potential/force error below 8 x the calibrated maximum of the order "
+            "(bounds_table.inc), error shrinks with the order (pair binary evaluating a low and a high order on the same case: hard per-case factor and median ratio over the campaign), and three "
+            "metamorphic relations to rounding: second block size/grouping mode, charge scaling (target/source: linear splitting of the source charges), power-of-two scaling + dyadic shift of the box; "
+            "non-trivial = the tree has a far field (>= 1 transfer pair) and >= 1 upward translation level")
+NUM_ASSUME = COMMON_ASSUME[2:] + ["accuracy bounds are empirical (8 x calibration maximum): truncation-order-sized defects are below the resolution of the threshold oracle; the convergence and metamorphic relations do not depend on them",
+                                  "'to rounding' = relative 1e-12 (rotation) / 1e-9 (uniform) of the sum of absolute contributions in double, 2e-5 / 2e-4 in float"]
+
+PROPS["C04"] = Meta(
+    [Job("rot12vs4", num(1, 12, low=4), quick=(6, 40, 100), thorough=(16, 500, 100)),
+     Job("rot8-omp", num(1, 8, rt=1), quick=(3, 30, 100), thorough=(16, 300, 100)),
+     Job("rot4-periodic", num(1, 4, periodic=1), quick=(3, 25, 100), thorough=(16, 250, 100)),
+     Job("rot8-float", num(1, 8, "float"), quick=(2, 40, 100), thorough=(16, 400, 100)),
+     Job("rot4-tsm", num(1, 4, tsmn=1), quick=(2, 40, 100), thorough=(16, 400, 100)),
+     Job("rot6", num(1, 6), quick=(1, 30, 100), thorough=(16, 400, 100), thorough_only=True),
+     Job("rot8-periodic", num(1, 8, periodic=1), quick=(1, 25, 100), thorough=(16, 200, 100), thorough_only=True),
+     Job("rot4-float", num(1, 4, "float"), quick=(1, 30, 100), thorough=(16, 400, 100), thorough_only=True)],
+    NUM_RULE, NUM_ASSUME)
+PROPS["C05"] = Meta(
+    [Job("unif8vs3", num(2, 8, low=3), quick=(6, 30, 100), thorough=(16, 400, 100)),
+     Job("unif5-omp", num(2, 5, rt=1), quick=(3, 30, 100), thorough=(16, 300, 100)),
+     Job("unif5-periodic", num(2, 5, periodic=1), quick=(3, 25, 100), thorough=(16, 250, 100)),
+     Job("unif5-float", num(2, 5, "float"), quick=(2, 40, 100), thorough=(16, 400, 100)),
+     Job("unif5-tsm", num(2, 5, tsmn=1), quick=(2, 40, 100), thorough=(16, 400, 100)),
+     Job("unif3-periodic-tsm", num(2, 3, periodic=1, tsmn=1), quick=(1, 25, 100), thorough=(16, 200, 100)),
+     Job("unif3-float", num(2, 3, "float"), quick=(1, 30, 100), thorough=(16, 400, 100), thorough_only=True)],
+    NUM_RULE, NUM_ASSUME)
+NUM_CONFIGS = {"C04": [(1, 12, "double", 0, 0, 0, 4), (1, 8, "double", 1, 0, 0, None), (1, 4, "double", 0, 1, 0, None), (1, 8, "float", 0, 0, 0, None), (1, 4, "double", 0, 0, 1, None),
+                       (1, 6, "double", 0, 0, 0, None), (1, 8, "double", 0, 1, 0, None), (1, 4, "float", 0, 0, 0, None)],
+               "C05": [(2, 8, "double", 0, 0, 0, 3), (2, 5, "double", 1, 0, 0, None), (2, 5, "double", 0, 1, 0, None), (2, 5, "float", 0, 0, 0, None), (2, 5, "double", 0, 0, 1, None),
+                       (2, 3, "double", 0, 1, 1, None), (2, 3, "float", 0, 0, 0, None)]}
